@@ -29,6 +29,15 @@ def generate(seed, tier):
     S = core.Streams(seed)
     fam = S['swarm'].choice(['multi_currency', 'multi_currency', 'multi_currency_supply', 'gold'])
     ops, info = econgen.gen_program(seed, family=fam, T=(S['knobs'].randint(2, 10) if tier == 'thorough' else None), tight=S['swarm'].random() < 0.7)
+    if S['swarm'].random() < 0.12:
+        # the Currency data member of a country is re-labelled after the country exists: zone membership, not this
+        # attribute, says which currency a country uses (Country's own documentation), so nothing may change
+        ctry = [o for o in ops if o['op'] == 'Country']
+        if len(ctry) >= 2:
+            a, b_ = S['swarm'].sample(ctry, 2)
+            main_i = [i for i, o in enumerate(ops) if o['op'] in ('main', 'SetAttr')][0]
+            ops.insert(main_i, {'op': 'SetAttr', 'obj': a['id'], 'attr': 'Currency',
+                                'value': b_.get('currency') or b_['code']})
     case = {'kind': 'ECON', 'family': info['family'], 'ops': ops, 'misuse': None}
     if S['faults'].random() < 0.2:
         # the program really contains a cross-currency element (all generated AddSupplier-with-rule ops and first
